@@ -137,6 +137,9 @@ def build(spec, perm=None, slots=None, strpool=None):
         return decimal.Decimal(spec[1])
     if k in "tgN":
         return build_np(spec)
+    if k == "m":
+        # a bound method of a fresh instance: ["m", instance tag, method name] - its value is the method AND the instance
+        return getattr(userclasses.MethodHolder(build(spec[1], perm, slots)), spec[2])
     if k in "SF":
         items = list(spec[1])
         if perm is not None:
